@@ -143,7 +143,7 @@ def get_gender(number):
     number = compact(number)
     if len(number) != 16:
         raise InvalidComponent()
-    return 'M' if int(number[9:11]) < 32 else 'F'
+    return 'M' if _date_digits[number[9]] * 10 + _date_digits[number[10]] < 32 else 'F'
 
 
 def validate(number):
